@@ -2,7 +2,7 @@
 From Coq Require Import List NArith Bool.
 From Frugal Require Import Bytes Wire Skip Values Desc Spec Encode Decode Checks Tags State Bitset Alloc DescMap Conc LegacyDefs.
 From Frugal.gen Require Import Params.
-From Frugal.proofs Require Import GenOk BytesWire EncodeSpec SizeExact SkipPut DecodeSafe DecodeRefines RoundTrip Corollaries StateProofs BitsetProofs AllocProofs DescMapProofs ConcProofs BufferContract.
+From Frugal.proofs Require Import GenParams Corollaries BitsetProofs.
 From Frugal.props Require Import Examples.
 Import ListNotations.
 
@@ -51,3 +51,8 @@ Example C09_instance :
   decode_object env_ex [] 0 (put (WStruct [(1, WI32 1)] [])) (fresh env_ex 0) = DErr (ERequired 5)
   /\ decode_object env_ex [] 0 (put (WStruct [(5, WI32 1); (3, WList false 12 [WStruct [(2, WStr [])] []])] [])) (fresh env_ex 0) = DErr (ERequired 1).
 Proof. split; vm_compute; reflexivity. Qed.
+
+(* the side conditions on the generated constants and tables that the theorems above assume hold
+   for what the translator read from the sources of this run *)
+Theorem C09_side_conditions : params_ok = true.
+Proof. exact params_ok_holds. Qed.
